@@ -135,6 +135,165 @@ def falls_off_the_end(func):
     return returns(func.node.body) is False
 
 
+ITERATOR_MAKERS = {'chain', 'map', 'filter', 'zip', 'iter', 'reversed', 'enumerate', 'islice', 'from_iterable', 'takewhile', 'dropwhile', 'accumulate', 'starmap', 'groupby'}
+
+
+def iterators_consumed_twice(func):
+    """name = <generator expression> / chain(...) / map(...) / zip(...) / ... ; the name is then consumed at two places that
+    can both run (or at one place inside a loop the assignment is outside of): the second consumer sees an EMPTY
+    iterator.  Uses in the two branches of one `if` exclude each other.  -> [(name, line of the second use)]"""
+    fn = func.node
+    parent = {}
+    for n in ast.walk(fn):
+        for ch in ast.iter_child_nodes(n):
+            parent[id(ch)] = n
+    def chain_of(n):
+        out = []
+        while id(n) in parent:
+            p = parent[id(n)]
+            out.append((p, n))
+            n = p
+        return out
+    out = []
+    for a in ast.walk(fn):
+        if not (isinstance(a, ast.Assign) and len(a.targets) == 1 and isinstance(a.targets[0], ast.Name)):
+            continue
+        v = a.value
+        maker = isinstance(v, ast.GeneratorExp) or (isinstance(v, ast.Call) and ((isinstance(v.func, ast.Name) and v.func.id in ITERATOR_MAKERS) or
+                                                                                  (isinstance(v.func, ast.Attribute) and v.func.attr in ITERATOR_MAKERS)))
+        if not maker:
+            continue
+        name = a.targets[0].id
+        stores = [x for x in ast.walk(fn) if isinstance(x, ast.Name) and x.id == name and isinstance(x.ctx, ast.Store)]
+        if len(stores) != 1:
+            continue
+        uses = [x for x in ast.walk(fn) if isinstance(x, ast.Name) and x.id == name and isinstance(x.ctx, ast.Load) and (x.lineno, x.col_offset) > (a.lineno, a.col_offset)]
+        a_loops = {id(p) for p, _ in chain_of(a) if isinstance(p, (ast.For, ast.While, ast.ListComp, ast.GeneratorExp, ast.SetComp, ast.DictComp))}
+        for u in uses:
+            if any(isinstance(p, (ast.For, ast.While)) and id(p) not in a_loops and c in p.body for p, c in chain_of(u)) \
+                    or any(isinstance(p, (ast.ListComp, ast.GeneratorExp, ast.SetComp, ast.DictComp)) and id(p) not in a_loops and c is getattr(p, 'elt', None) for p, c in chain_of(u)):
+                out.append((name, u.lineno))
+                break
+        else:
+            def exclusive(u1, u2):
+                c1, c2 = chain_of(u1), chain_of(u2)
+                for p1, ch1 in c1:
+                    for p2, ch2 in c2:
+                        if p1 is p2 and isinstance(p1, ast.If):
+                            in_body = lambda ch: any(ch is s for s in p1.body)
+                            in_else = lambda ch: any(ch is s for s in p1.orelse)
+                            if (in_body(ch1) and in_else(ch2)) or (in_else(ch1) and in_body(ch2)):
+                                return True
+                        if p1 is p2 and isinstance(p1, ast.IfExp) and {id(ch1), id(ch2)} == {id(p1.body), id(p1.orelse)}:
+                            return True
+                return False
+            for i in range(len(uses)):
+                hit = False
+                for j in range(i + 1, len(uses)):
+                    if not exclusive(uses[i], uses[j]):
+                        out.append((name, uses[j].lineno))
+                        hit = True
+                        break
+                if hit:
+                    break
+    return out
+
+
+MUTABLE_DISPLAYS = (ast.List, ast.Dict, ast.Set, ast.ListComp, ast.DictComp, ast.SetComp)
+IN_PLACE = ('append', 'extend', 'insert', 'add', 'update', 'setdefault', 'pop', 'remove', 'clear', 'sort', 'reverse')
+
+
+def shared_containers(repo, func):
+    """two names for ONE freshly made container that is then changed in place:
+       a = b = []            (chained assignment of one list / dict / set to two targets), or
+       rows = [[]] * n       (n references to one inner list) followed by rows[i].append(x) / rows[i][j] = x / rows[i] += [x].
+    -> [(line, text)]"""
+    out = []
+    fn = func.node
+    def dotted(e):
+        if isinstance(e, ast.Name):
+            return e.id
+        if isinstance(e, ast.Attribute):
+            b = dotted(e.value)
+            return None if b is None else b + '.' + e.attr
+        return None
+    scope = [fn]
+    # attributes of self may be filled in by other methods of the class
+    if func.cls and func.cls in repo.classes:
+        scope = [m.node for m in repo.classes[func.cls].values()] + [g.node for g in repo.all_funcs() if g.cls != func.cls]
+    def mutated(names):
+        for sc in (scope if any('.' in n_ for n_ in names) else [fn]):
+            for n in ast.walk(sc):
+                if isinstance(n, ast.Call) and isinstance(n.func, ast.Attribute) and n.func.attr in IN_PLACE:
+                    d = dotted(n.func.value)
+                    if d is not None and any(d == x or d.endswith('.' + x.split('.')[-1]) and '.' in x for x in names):
+                        return n.lineno
+                if isinstance(n, (ast.Assign, ast.AugAssign)):
+                    for t in (n.targets if isinstance(n, ast.Assign) else [n.target]):
+                        if isinstance(t, ast.Subscript):
+                            d = dotted(t.value)
+                            if d is not None and any(d == x or d.endswith('.' + x.split('.')[-1]) and '.' in x for x in names):
+                                return n.lineno
+        return None
+    for n in ast.walk(fn):
+        if isinstance(n, ast.Assign) and len(n.targets) >= 2 and isinstance(n.value, MUTABLE_DISPLAYS):
+            names = [dotted(t) for t in n.targets]
+            if all(x is not None for x in names):
+                ln = mutated(names)
+                if ln is not None:
+                    out.append((n.lineno, '%s = %s: one container under %d names, changed in place at line %d' % (' = '.join(names), ast.unparse(n.value)[:30], len(names), ln)))
+        if isinstance(n, ast.Assign) and len(n.targets) == 1 and isinstance(n.targets[0], ast.Name) and isinstance(n.value, ast.BinOp) and isinstance(n.value.op, ast.Mult):
+            lst = n.value.left if isinstance(n.value.left, ast.List) else (n.value.right if isinstance(n.value.right, ast.List) else None)
+            if lst is not None and len(lst.elts) == 1 and isinstance(lst.elts[0], MUTABLE_DISPLAYS):
+                name = n.targets[0].id
+                for m in ast.walk(fn):
+                    hit = None
+                    if isinstance(m, ast.Call) and isinstance(m.func, ast.Attribute) and m.func.attr in IN_PLACE and isinstance(m.func.value, ast.Subscript) \
+                            and isinstance(m.func.value.value, ast.Name) and m.func.value.value.id == name:
+                        hit = m.lineno
+                    if isinstance(m, ast.AugAssign) and isinstance(m.target, ast.Subscript) and isinstance(m.target.value, ast.Name) and m.target.value.id == name \
+                            and isinstance(lst.elts[0], (ast.List, ast.ListComp)):
+                        hit = m.lineno                    # rows[i] += [x] extends the shared inner list in place
+                    if isinstance(m, (ast.Assign, ast.AugAssign)):
+                        for t in (m.targets if isinstance(m, ast.Assign) else [m.target]):
+                            if isinstance(t, ast.Subscript) and isinstance(t.value, ast.Subscript) and isinstance(t.value.value, ast.Name) and t.value.value.id == name:
+                                hit = m.lineno
+                    if hit is not None:
+                        out.append((n.lineno, '%s = %s: every slot is the same inner container, changed in place at line %d' % (name, ast.unparse(n.value)[:30], hit)))
+                        break
+    return out
+
+
+def identity_comparisons(repo, func):
+    """`a is b` / `a is not b` where neither side is None, True, False, Ellipsis or a module-level sentinel object(): identity of
+    two computed values (ints beyond CPython's small-int cache, strings) is not equality.  -> [(line, text)]"""
+    tree = repo.trees.get(func.relpath)
+    sentinels = set()
+    if tree is not None:
+        for st in tree.body:
+            if isinstance(st, ast.Assign) and len(st.targets) == 1 and isinstance(st.targets[0], ast.Name) and isinstance(st.value, ast.Call) \
+                    and isinstance(st.value.func, ast.Name) and st.value.func.id == 'object':
+                sentinels.add(st.targets[0].id)
+    enums = set()
+    for rel_, tree_ in repo.trees.items():
+        for c_ in ast.walk(tree_):
+            if isinstance(c_, ast.ClassDef) and any((isinstance(b_, ast.Name) and b_.id.endswith('Enum')) or (isinstance(b_, ast.Attribute) and b_.attr.endswith('Enum')) for b_ in c_.bases):
+                enums.add(c_.name)
+    def singleton(e):
+        if isinstance(e, ast.Attribute) and isinstance(e.value, ast.Name) and e.value.id in enums:
+            return True                          # members of an Enum are singletons
+        return (isinstance(e, ast.Constant) and (e.value is None or e.value is True or e.value is False or e.value is Ellipsis)) or (isinstance(e, ast.Name) and e.id in sentinels)
+    out = []
+    for n in ast.walk(func.node):
+        if isinstance(n, ast.Compare):
+            left = n.left
+            for op, right in zip(n.ops, n.comparators):
+                if isinstance(op, (ast.Is, ast.IsNot)) and not singleton(left) and not singleton(right):
+                    out.append((n.lineno, '%s %s %s' % (ast.unparse(left)[:40], 'is' if isinstance(op, ast.Is) else 'is not', ast.unparse(right)[:40])))
+                left = right
+    return out
+
+
 def partial_key_caches(repo, func):
     """a value computed from the function's inputs is kept in MODULE-LEVEL state (a global rebound under `global`, or an entry
     stored into a module-level container) and reused later, while the test that decides on reuse / the key it is filed
